@@ -354,4 +354,22 @@ example : (xRun x0 (exApi.take 5)).prA = false ∧ (xRun x0 (exApi.take 6)).prA 
     (xRun x0 [.base (.initNew .a true .good false) false, .base (.dec .a .start) false,
               .base (.dec .a (.proc true true)) false]).prA = false := by decide
 
+/-- two decoders: a hypothesis string borrowed from decoder a stays readable across an utterance, a re-initialisation and
+the release of decoder b (hypotheses of `C09_borrows_isolated`), and is dropped by decoder a's own `decoder_result_json` -/
+def exTwoBorrow : List XCall :=
+  [.base (.initNew .a true .good false) false, .base (.initNew .b false .good false) false, .base (.dec .a .start) false,
+   .base (.dec .a (.proc false true)) true, .hypHold .a 0 true, .base (.dec .b .start) false,
+   .base (.dec .b (.proc true true)) false, .base (.dec .b (.endUtt false)) false, .base (.reinitKeep .b) false,
+   .base (.dec .b .free) false, .borrowUse 0, .base (.dec .a (.json 0 false false false)) false, .borrowUse 0]
+
+example : xRets x0 exTwoBorrow = [.ptr, .ptr, .ok, .count, .ptr, .ok, .count, .ok, .ok, .rc 0, .void, .ptr, .oop] ∧
+    (0, BSrc.hypStr .a) ∈ (xRun x0 (exTwoBorrow.take 10)).borrows := by decide
+
+/-- states that differ only in the phase flag exist among the reachable ones (hypothesis of
+`C09_started_processing_unobservable`): after a streaming block the model is in PROCESSING; erasing the flag gives a
+different state with the same future -/
+example : PhaseEq (xRun x0 (exApi.take 6)) ((xRun x0 (exApi.take 6)).setProc .a false) ∧
+    xRun x0 (exApi.take 6) ≠ (xRun x0 (exApi.take 6)).setProc .a false := by
+  refine ⟨phaseEq_setProcR ⟨rfl, rfl, rfl, rfl, rfl, rfl, rfl⟩ _ _, by decide⟩
+
 end SSVerif.Protocol
